@@ -120,3 +120,15 @@ var _ = pr.AutoF
 //@   nopanic
 //@   modifies nothing
 //@   ensures result == 1 || result >= minimum
+
+// css-lists-3 §4: counter-reset creates a new counter instance in the scope of the element (replacing one
+// created by an earlier sibling), counter-set / counter-increment act on the innermost instance and create
+// one when there is none. After each declaration is applied the named counter therefore HAS an innermost
+// instance (its value stack is not empty: the scope pops at the end of the parent rely on it) whose value is
+// the one the declaration gives.
+//@ func UpdateCounters
+//@   props C01 C19
+//@   modifies anything
+//@   loop 1 step[reset-creates] len(counterValues[nv.String]) >= 1 && counterValues[nv.String][len(counterValues[nv.String])-1] == nv.Int
+//@   loop 2 step[set-creates] len(counterValues[nv.String]) >= 1 && counterValues[nv.String][len(counterValues[nv.String])-1] == nv.Int
+//@   loop 3 step[increment-creates] len(counterValues[ci.String]) >= 1
